@@ -58,6 +58,22 @@ Theorem C06_thread_last : forall forms fuel x,
   thread false fuel x forms = Ok (fold_left ins_last forms x).
 Proof. exact thread_last_fold. Qed.
 
+(* if-let* with bindings (VAR EXPR): one let* that binds every variable to       *)
+(* (and PREVIOUS EXPR), the first to (and t EXPR); the THEN form is chosen by the *)
+(* last variable, the ELSE forms follow - the Emacs definition                    *)
+Theorem C06_if_let_star : forall rec bs thn rest s, bs <> [] -> listp rest = true ->
+  apply_pmac rec MIfLetStar (Cons (of_list (map mk_binding bs) Nil) (Cons thn rest)) s =
+  (Ok (of_list [S_ "let*"; of_list (chain bs T) Nil;
+                of_list [S_ "if"; last_var bs; thn] rest] Nil), s).
+Proof. exact if_let_star_expansion. Qed.
+(* if-let over a list of bindings is if-let* with the ELSE forms under one progn *)
+Theorem C06_if_let : forall rec spec thn rest s c pr,
+  car_of spec = Ok c -> listp c = true -> progn_on_rest rest = Ok pr ->
+  apply_pmac rec MIfLet (Cons spec (Cons thn rest)) s =
+  (Ok (of_list [S_ "if-let*"; spec; thn; pr] Nil), s).
+Proof. exact if_let_expansion. Qed.
+Print Assumptions C06_if_let_star. Print Assumptions C06_if_let.
+
 Print Assumptions C06_macro_call_is_expansion. Print Assumptions C06_user_macro_call_is_expansion.
 Print Assumptions C06_expanded_is_fixpoint. Print Assumptions C06_quoted_untouched.
 Print Assumptions C06_atoms_untouched. Print Assumptions C06_when. Print Assumptions C06_unless.
